@@ -4,7 +4,7 @@ from __future__ import annotations
 import ast
 
 from engine.defuse import value_sources
-from engine.flow import expand_aliases, dominating_guards, reachable_from_entry, same_name_value
+from engine.flow import deref, expand_aliases, dominating_guards, reachable_from_entry, same_name_value
 from .links import check_links
 
 META = {
@@ -191,7 +191,9 @@ def check(ctx):
                         else:
                             a_cfg, a_field, a_exc = args[0], args[1], args[2]
                             if cfg_name is not None:
-                                if not (isinstance(a_cfg, ast.Name) and a_cfg.id == cfg_name):
+                                if not (isinstance(a_cfg, ast.Name) and (a_cfg.id == cfg_name or (
+                                        deref(f, a_cfg, None) is not a_cfg and isinstance(deref(f, a_cfg, None), ast.Name) and deref(f, a_cfg, None).id == cfg_name)
+                                        or all(k == "param" and p_ == cfg_name for k, p_ in value_sources(f, a_cfg, None)))):
                                     ok, why = False, "the error names configuration %s, not the one being operated on" % ast.unparse(a_cfg)
                             else:
                                 # Field.__setdefault__/Schema._validate: the cfg/config parameter
@@ -387,7 +389,18 @@ def check(ctx):
     # ---------------------------------------------------------------- C15.4 DictProxy
     dv = model.method("DictProxy", "_validate")
     g = an.cfg(dv)
-    raises = [x for x in ast.walk(dv.node) if isinstance(x, ast.Raise) and isinstance(x.exc, ast.Call)]
+    raises = []
+    for x in ast.walk(dv.node):
+        if isinstance(x, ast.Raise) and isinstance(x.exc, ast.Call):
+            raises.append(x)
+        elif isinstance(x, ast.Raise) and isinstance(x.exc, ast.Name):
+            # the error object was built by a helper (inlined) and is raised through a local
+            srcs = value_sources(dv, x.exc, None)
+            if len(srcs) == 1 and srcs[0][0] == "expr" and isinstance(srcs[0][1], ast.Call):
+                r2 = ast.Raise(exc=srcs[0][1], cause=x.cause)
+                ast.copy_location(r2, x)
+                r2._parent = getattr(x, "_parent", None)
+                raises.append(r2)
     ctx.need(len(raises) >= 1, "DictProxy._validate no longer raises for key and value")
     # both component validations are converted (two try blocks, or one loop over (key, value) with one handler)
     vcalls = [n for n in g.nodes if n.kind == "call" and isinstance(n.ast.func, ast.Attribute) and n.ast.func.attr == "validate"]
@@ -398,7 +411,8 @@ def check(ctx):
         rp = kws.get("ref_path")
         if rp is None and len(r.exc.args) >= 4:
             rp = r.exc.args[3]
-        ok = rp is not None and any(isinstance(x, ast.Name) and x.id == kparam for x in ast.walk(rp))
+        ok = rp is not None and any(isinstance(x, ast.Name) and (x.id == kparam or all(
+            k == "param" and p_ == kparam for k, p_ in (value_sources(dv, x, None) or [("?", None)]))) for x in ast.walk(rp))
         ve = all(t.kind == "ctor" and t.cls.name == "ValidationError" for n in g.nodes_for(r.exc) for t in an.targets(dv, n))
         ctx.ob("dict.error-carries-key", dv, r, ok and ve,
                "the error's reference path includes the entry key" if ok and ve else
